@@ -53,7 +53,10 @@ RULE = ("sealed trees (flat / nested, 1-3 generations, with and without ignore p
         "the generations read back independently. Non-trivial: at least one mutation step.")
 # recorded inputs that run first on every run: a folder recorded without directory hashes (-n) vanishes (renamed) and create -dr
 # has new paths to compare with -- the rename detection must not end in an internal error (it did: AttributeError on None)
-CORPUS = [{"tree": {"a.bin": {"f": "0102"}, "b.bin": {"f": "0304"}, "D": {"d": {"c.bin": {"f": "0506"}, "E": {"d": {}}}}},
+CORPUS = [{"tree": {"keep.bin": {"f": "00"}, "Clips": {"d": {"c%02d.mov" % k: {"f": "%02x%02x" % (k, k)} for k in range(30)}}},
+           # many entries missing at once: every one of them is named
+           "steps": [{"op": "create", "fmts": ["md5"]}, {"op": "delete", "path": "Clips"}, {"op": "verify"}, {"op": "diff"}, {"op": "create", "fmts": ["md5"]}]},
+          {"tree": {"a.bin": {"f": "0102"}, "b.bin": {"f": "0304"}, "D": {"d": {"c.bin": {"f": "0506"}, "E": {"d": {}}}}},
            # several things wrong at once: a file altered AND other entries removed -- the exit code is the altered file's, and
            # the removed paths are still named
            "steps": [{"op": "create", "fmts": ["md5"]}, {"op": "set", "path": "a.bin", "data": "ffff"}, {"op": "delete", "path": "b.bin"},
